@@ -295,7 +295,7 @@ func Check(c *core.Ctx) (map[string]any, []string, error) {
 		nText = 60000
 	}
 	var judgeCov map[string]any
-	if os.Getenv("C02_FAM") == "" || os.Getenv("C02_FAM") == "irq" {
+	if os.Getenv("C02_FAM") == "" { // C02_FAM=<family> is a development aid: one family only, no judge run
 		jc, err := JudgeTexts(c, nText)
 		if err != nil {
 			return nil, nil, err
